@@ -4,6 +4,7 @@ import Driver.C05
 import Driver.Enable
 import Driver.C13
 import Driver.C15
+import Driver.C17
 open Driver
 
 def dispatch (line : String) : String :=
@@ -13,6 +14,7 @@ def dispatch (line : String) : String :=
   | "exit" :: args => C05.exit args
   | "checks" :: args => EnableOp.checks args
   | "merge" :: args => EnableOp.merge args
+  | "reconcile" :: args => C17.reconcile args
   | "failover" :: args => C15.failoverOp args
   | "slice" :: args => C13.op "slice" args
   | "plan" :: args => C13.op "plan" args
